@@ -76,6 +76,7 @@ type Facts struct {
 	implied  map[impliedKey]FactSet
 	cache    map[*ssa.Function]*FuncFacts
 	mentions map[string][]*types.Var
+	mayRead  map[*ssa.Function]map[*types.Var]bool
 }
 
 type impliedKey struct {
@@ -105,6 +106,36 @@ func (fa *Facts) MayWrite(f *ssa.Function) map[*types.Var]bool {
 		if cc := callCommon(in); cc != nil {
 			if g := staticCallee(cc); g != nil && g.Pkg != nil && g.Pkg.Pkg.Path() == smtpPath {
 				for k := range fa.MayWrite(g) {
+					w[k] = true
+				}
+			}
+		}
+	})
+	return w
+}
+
+// MayRead: fields the function may load, transitively over static callees.
+func (fa *Facts) MayRead(f *ssa.Function) map[*types.Var]bool {
+	if fa.mayRead == nil {
+		fa.mayRead = map[*ssa.Function]map[*types.Var]bool{}
+	}
+	if w, ok := fa.mayRead[f]; ok {
+		return w
+	}
+	w := map[*types.Var]bool{}
+	fa.mayRead[f] = w
+	if f.Blocks == nil {
+		return w
+	}
+	allInstrs(f, func(in ssa.Instruction) {
+		if v, ok := in.(ssa.Value); ok {
+			if fld, _ := loadedField(v); fld != nil {
+				w[fld] = true
+			}
+		}
+		if cc := callCommon(in); cc != nil {
+			if g := staticCallee(cc); g != nil && inSmtp(g) {
+				for k := range fa.MayRead(g) {
 					w[k] = true
 				}
 			}
